@@ -7,7 +7,9 @@ package explore
 import (
 	"encoding/json"
 	"fmt"
+	"os"
 	"sort"
+	"strconv"
 	"time"
 )
 
@@ -76,6 +78,11 @@ func (c *Ctx) Thorough() bool { return c.Tier == "thorough" }
 // Pick returns q on the quick tier and t on the thorough tier.
 func (c *Ctx) Pick(q, t int) int {
 	if c.Thorough() {
+		// VERIF_EXTRA=k: a campaign run k steps beyond the thorough bounds (not a registered tier;
+		// run by hand with a longer --deadline to look for what lies just outside them)
+		if x, err := strconv.Atoi(os.Getenv("VERIF_EXTRA")); err == nil && x > 0 {
+			return t + x
+		}
 		return t
 	}
 	return q
